@@ -10,14 +10,15 @@ CLAIMED = {
                 "conversions equal the report's, every Newton exit satisfies Kepler's equation to 1e-12, Kepler's equation has exactly one solution and the returned "
                 'E+omega is within 1e-12/(1-sqrt eL2) rad of it (MVT/IVT); the two remaining leaves (|1+cos i| < 1.5e-12) are proved unreachable for inclinations with '
                 'four decimals; the ISS set and a small-eccentricity set are proved to be on their paths by interval arithmetic. The 1 mm / 1 um/s claim itself is '
-                'PROVED over the reals for EVERY answered propagation with a <= 2 earth radii and eL^2 <= 4/25 (every near-earth orbit has a < 1.93), with no '
-                'hypothesis on the Newton loop: each coordinate of the returned position is within 1e-6 km, and of the returned velocity within 1e-9 km/s, of the '
-                "report's at the unique exact solution of Kepler's equation (C01_answered_position_accuracy*), via a compositional Lipschitz calculus (310000 km/rad, "
-                '460 (km/s)/rad) and a convergence proof of the loop regenerated from source: the iterates are the second-order step, the first-step clamp is inactive,'
-                ' each step squares the error (Taylor remainder by a monotone comparison function + MVT), the sixth stopping test cannot fail, so the unchecked '
-                'eleventh exit is unreachable (C01_newton_*). A healthy orbit is proved to be answered and the ISS set at epoch is proved to meet every hypothesis (no '
-                'vacuous theorem). PARTIAL: binary64 rounding, and convergence for eL^2 > 4/25, are sampled: implementation vs an independent evaluation of the report '
-                '(worst 0.011 mm) and the AIAA vectors',
+                'PROVED over the reals for EVERY answered propagation with a <= 4 earth radii and eL^2 <= 4/25 (a near-earth orbit has a0 < 1.93, so a <= 4 is the '
+                'whole range in which the model keeps the semi-major axis within a factor of two of its epoch value), with no hypothesis on the Newton loop: each '
+                "coordinate of the returned position is within 1e-6 km, and of the returned velocity within 1e-9 km/s, of the report's at the unique exact solution of "
+                "Kepler's equation (C01_answered_position_accuracy*), via a compositional Lipschitz calculus (570000 km/rad, 460 (km/s)/rad) and a convergence proof of"
+                ' the loop regenerated from source: the iterates are the second-order step, the first-step clamp is inactive, each step squares the error (Taylor '
+                'remainder by a monotone comparison function + MVT), the sixth stopping test cannot fail, so the unchecked eleventh exit is unreachable (C01_newton_*).'
+                ' A healthy orbit is proved to be answered and the ISS set at epoch is proved to meet every hypothesis (no vacuous theorem). PARTIAL: binary64 '
+                'rounding, and convergence for eL^2 > 4/25, are sampled: implementation vs an independent evaluation of the report (worst 0.011 mm) and the AIAA '
+                'vectors',
         "design_ref": 'DESIGN.md 5/C01',
         "note": 'trusted: Coq kernel, stdlib real axioms (+ Uint63/float primitives via Interval in the example), translator (self-checked each run on outcome class '
                 'and state), Spec_SGP4.v transcription (cross-checked by the Gen=Spec proofs: a slip in D4 was caught that way). Known finding C01:aiaa:29141 (decaying'
